@@ -52,18 +52,27 @@ Section Run.
                      (map (fun p => let v := vget s (snd p) in
                                     {| vd_id := vid v; vd_level := vlevel v; vd_edges := map (canon_edges s) (vedges v) |}) (idmap s)) |}.
 
-  Definition step (s : hnsw) (o : hop) : hnsw * hobs :=
+  (* ---- Remove visits the removed vertex's neighbours in Go map order, and the re-pruning of one neighbour reads the
+     links of the others: the resulting graph depends on that order.  The checker looks for the order the implementation
+     used, level by level (a level's unlinking only touches that level's links), among all permutations when the vertex
+     has at most [max_perm_len] neighbours there; with more neighbours the rest of the case is compared weakly. ---- *)
+  Fixpoint ins_all {A} (x : A) (l : list A) : list (list A) :=
+    match l with [] => [[x]] | y :: t => (x :: l) :: map (cons y) (ins_all x t) end.
+  Fixpoint perms {A} (l : list A) : list (list A) :=
+    match l with [] => [[]] | x :: t => flat_map (ins_all x) (perms t) end.
+  Definition max_perm_len := 5%nat.
+  Definition level_view (d : sdump) (l : nat) := map (fun v => nth l (vd_edges v) []) (sd_verts d).
+
+  Definition step_pure (s : hnsw) (o : hop) (uord : nat -> list edge -> list edge) : hnsw * hobs :=
     match o with
     | HInsert id v m lvl => let '(s', st) := insert dist ord_id c s id v m lvl in (s', ODump st (dump_of s'))
     | HRemove id ea =>
         (* the fallback choice is resolved against the state in which the hand-over runs *)
         let choice := match remove_vertex s id with Some (s1, _) => serial_of s1 ea | None => None end in
-        let '(s', st) := remove dist ord_id c s id choice in (s', ODump st (dump_of s'))
+        let '(s', st) := remove dist ord_id c s id choice uord in (s', ODump st (dump_of s'))
     | HSearch q k => (s, OResult (search dist ord_id c s q k))
     | HReload => let s' := reload s in (s', ODump SOk (dump_of s'))
     end.
-  Fixpoint run (s : hnsw) (ops : list hop) : list hobs :=
-    match ops with [] => [] | o :: r => let '(s', x) := step s o in x :: run s' r end.
 End Run.
 
 (* ---- equality of observations ---- *)
@@ -100,9 +109,65 @@ Record hn_case := {
   hc_items : list (N * (vec * meta));            (* for result checking: current contents are tracked from the ops *)
   hc_ops : list hop; hc_obs : list hobs; hc_regime : bool }.
 
-Definition hn_case_model_ok (cs : hn_case) : bool :=
-  let outs := run (table_dist (hc_vecs cs) (hc_dist cs)) (hc_cfg cs) hnsw_empty (hc_ops cs) in
-  list_eqb (if hc_regime cs then hobs_eqb else hobs_weak_eqb) outs (hc_obs cs).
+Section RunObs.
+  Variable dist : vec -> vec -> Z.
+  Variable c : cfg.
+  Definition level_eqb (d d' : sdump) (l : nat) : bool := list_eqb (list_eqb edge3_eqb) (level_view d l) (level_view d' l).
+  Definition id_uord : nat -> list edge -> list edge := fun _ l => l.
+  Fixpoint find_orders (s : hnsw) (n : nat) (level cnt : nat) (obs : sdump) : option (list (nat * list edge)) :=
+    match cnt with
+    | O => Some []
+    | S k =>
+        let key := edges_at (vget s n) level in
+        if Nat.ltb max_perm_len (length key) then None else
+        let after p := fold_left (unlink_one dist ord_id c level n) p s in
+        let pick := if Nat.leb (length key) 1 then key
+                    else match find (fun p => level_eqb (dump_of (after p)) obs level) (perms key) with Some p => p | None => key end in
+        match find_orders (after pick) n (level - 1) k obs with
+        | Some r => Some ((level, pick) :: r)
+        | None => None
+        end
+    end.
+  Definition uord_of (r : list (nat * list edge)) : nat -> list edge -> list edge :=
+    fun l _ => match find (fun p => Nat.eqb (fst p) l) r with Some p => snd p | None => [] end.
+
+  (* runs the history on the model; every observation is paired with "still compared exactly" *)
+  Fixpoint run_obs (exact : bool) (s : hnsw) (ops : list hop) (obs : list hobs) : list (hobs * bool) :=
+    match ops with
+    | [] => []
+    | o :: r =>
+        let '(uord, exact') :=
+          match o, hd (OResult []) obs with
+          | HRemove id ea, ODump _ d =>
+              if exact then
+                match lookup_id s id with
+                | Some n =>
+                    let choice := match remove_vertex s id with Some (s1, _) => serial_of s1 ea | None => None end in
+                    let s2 := fst (remove dist ord_id c s id choice (fun _ _ => [])) in     (* the state before unlinking *)
+                    match find_orders s2 n (vlevel (vget s2 n)) (S (vlevel (vget s2 n))) d with
+                    | Some r => (uord_of r, true)
+                    | None => (id_uord, false)
+                    end
+                | None => (id_uord, true)
+                end
+              else (id_uord, false)
+          | _, _ => (id_uord, exact)
+          end in
+        let '(s', x) := step_pure dist c s o uord in (x, exact') :: run_obs exact' s' r (tl obs)
+    end.
+End RunObs.
+
+Fixpoint obs_match (outs : list (hobs * bool)) (obs : list hobs) : bool :=
+  match outs, obs with
+  | [], [] => true
+  | (x, e) :: a, y :: b => (if e then hobs_eqb x y else hobs_weak_eqb x y) && obs_match a b
+  | _, _ => false
+  end.
+Definition hn_run (cs : hn_case) : list (hobs * bool) :=
+  run_obs (table_dist (hc_vecs cs) (hc_dist cs)) (hc_cfg cs) (hc_regime cs) hnsw_empty (hc_ops cs) (hc_obs cs).
+Definition hn_case_model_ok (cs : hn_case) : bool := obs_match (hn_run cs) (hc_obs cs).
+(* how many observations of the case were compared exactly *)
+Definition hn_case_exact (cs : hn_case) : nat := length (filter snd (hn_run cs)).
 
 (* ---- the property on the observations alone ---- *)
 (* invariant on a dump: entry point is a member iff the index is non-empty; links carry the level discipline *)
@@ -157,14 +222,12 @@ Definition hn_case_oracle_ok (cs : hn_case) : bool :=
   match oracle_run (table_dist (hc_vecs cs) (hc_dist cs)) [] (hc_ops cs) (hc_obs cs) 0 with None => true | Some _ => false end.
 
 (* debugging aid: first position where model and observation differ *)
-Fixpoint first_diff (e : hobs -> hobs -> bool) (a b : list hobs) (i : nat) : option (nat * hobs * hobs) :=
+Fixpoint first_diff (a : list (hobs * bool)) (b : list hobs) (i : nat) : option (nat * hobs * hobs) :=
   match a, b with
-  | x :: a', y :: b' => if e x y then first_diff e a' b' (S i) else Some (i, x, y)
+  | (x, e) :: a', y :: b' => if (if e then hobs_eqb x y else hobs_weak_eqb x y) then first_diff a' b' (S i) else Some (i, x, y)
   | _, _ => None
   end.
-Definition hn_case_diff (cs : hn_case) :=
-  first_diff (if hc_regime cs then hobs_eqb else hobs_weak_eqb)
-             (run (table_dist (hc_vecs cs) (hc_dist cs)) (hc_cfg cs) hnsw_empty (hc_ops cs)) (hc_obs cs) 0.
+Definition hn_case_diff (cs : hn_case) := first_diff (hn_run cs) (hc_obs cs) 0.
 
 (* ---- C07: small insert-only collections ---- *)
 Record ex_case := {
